@@ -166,6 +166,25 @@ Definition concat_c {A B} (ds : list (cds A B)) : cds A B :=
   let r := shifted_rows 0 0 ds in
   mk_cds (fst r) (snd r) (flat_map pvals ds) (flat_map svals ds).
 
+(* ------------------------------------------------------------------ the width of the index type
+   The indices of this model are naturals: nothing above depends on how many bits Collocations/pairs has.  The code does
+   the shift in place (`pairs[0, :] += primary_size`), i.e. in the integer type the array already has (int64 as the code
+   is: np.array(pairs, dtype=int)).  concat_w W is the same concatenation with the shifted indices taken in a type of W
+   values (W = 2^8, 2^16, ..., 2^63), wrapping modulo W as an in-place numpy addition on an unsigned array does.
+   Theorems concat_width_is_mod / concat_fits_width_iff (Props/C13.v): concat_w W = concat_c exactly when the running
+   totals of stored points fit into W -- so for W = 2^63 the model above IS the code, and a type chosen for the single
+   datasets (fewer than W points each) is not good enough for the concatenation. *)
+Fixpoint shifted_rows_w {A B} (W po so : nat) (ds : list (cds A B)) : list nat * list nat :=
+  match ds with
+  | [] => ([], [])
+  | d :: t =>
+      let r := shifted_rows_w W (po + length (pvals d)) (so + length (svals d)) t in
+      (map (fun i => (po + i) mod W) (prow d) ++ fst r, map (fun j => (so + j) mod W) (srow d) ++ snd r)
+  end.
+Definition concat_w {A B} (W : nat) (ds : list (cds A B)) : cds A B :=
+  let r := shifted_rows_w W 0 0 ds in
+  mk_cds (fst r) (snd r) (flat_map pvals ds) (flat_map svals ds).
+
 (* ------------------------------------------------------------------ the law of the property's first sentence, per group
    raw = one row of original_pairs (positions of the collocated points in the original data), stored = the original
    positions of the points kept in the compact dataset (dataset.isel(collocation=original_indices)), idx = the row of
